@@ -108,6 +108,8 @@ func sortable(t reflect.Type) bool {
 
 // MapOrder returns the keys of map m in the order the current node's MapMode dictates.
 func MapOrder(site int, m interface{}) []interface{} {
+	raceOff()
+	defer raceOn()
 	v := reflect.ValueOf(m)
 	if !v.IsValid() || v.Kind() != reflect.Map || v.Len() == 0 {
 		return nil
@@ -149,6 +151,8 @@ func MapOrder(site int, m interface{}) []interface{} {
 // SelectOrder returns the order in which an instrumented select polls its n
 // communication cases (identity by default; permuted by the tape stream "sel").
 func SelectOrder(site int, n int) []int {
+	raceOff()
+	defer raceOn()
 	out := make([]int, n)
 	for i := range out {
 		out[i] = i
